@@ -155,6 +155,9 @@ def embed_cases(tier):
     for combo in (('A-sim', 'B-pc'), ('C-simex-caps', 'A-sim', 'D-multi-mm'), ('A-sim', 'A-sim')):
         for ext in (False, True):
             cases.append((combo, ext, 'one-after-the-other', 'nested-codes'))
+    # economies of very different size and convergence speed, really solved for two periods: the series of each as when solved alone
+    cases.append((('A-sim', 'A-sim'), False, 'one-after-the-other', 'scaled'))
+    cases.append((('A-sim', 'A-sim', 'A-sim'), True, 'one-after-the-other', 'scaled'))
     return cases
 
 
@@ -174,6 +177,14 @@ def make_eco(i, vname, scheme='plain'):
         # the federation's last region is a Region() without a currency: it takes the model's default currency
         p = Z.Plan('eco_' + cc)
         Z.reg_federation(p, cc, cur, last_region_default_currency=True)
+        return p
+    if scheme == 'scaled':
+        # economies of very different size and speed of convergence: the first spends 1e6 a period and settles fast, the second spends 20 and settles slowly
+        kw = dict(eco_variants()[vname])
+        kw.update([dict(a1=0.5, a2=0.5, theta=0.4), dict(a1=0.8, a2=0.2, theta=0.15), dict(a1=0.6, a2=0.4, theta=0.2)][i])
+        p = eco_plan(cc, cur, kw)
+        if i == 0:
+            p.post(lambda c, cc=cc: c[cc + '.GOV'].SetExogenous('DEM_GOOD', Z.exo(base=1.0e6)))
         return p
     return eco_plan(cc, cur, eco_variants()[vname])
 
@@ -204,7 +215,7 @@ def work_embed(case):
         Z.external(pe)
         jplans = [pe] + jplans
     cj = Z.build(jplans, order=order)
-    ej = emit(cj, maxtime=1)        # really solved for one period
+    ej = emit(cj, maxtime=2 if scheme == 'scaled' else 1)        # really solved for one period (two when the series are compared)
     if ej.text and ej.err is not None:
         rec['obs'].append({'kind': 'builds', 'what': 'joint model cannot be solved: %r' % (ej.err,), 'verdict': 'sat', 'structural': {'error': repr(ej.err)[:200]}})
     if not ej.text:
@@ -234,6 +245,30 @@ def work_embed(case):
         rec['obs'] += obs
         rec['solver_s'] += D.solver_s
         rec['queries'] += D.queries
+        if scheme == 'scaled' and ej.err is None:
+            # the numbers: this economy solved alone for the same two periods
+            es_ = emit(Z.build(p), maxtime=2)
+            bad = None
+            if es_.err is not None:
+                bad = 'alone: %r' % (es_.err,)
+            else:
+                ta, tj = es_.model.EquationSolver.TimeSeries, cj.model.EquationSolver.TimeSeries
+                diff = []
+                for v in ta:
+                    if v in ('k', 't'):
+                        continue
+                    w = amap(v)
+                    if w not in tj:
+                        diff.append((v, w, 'missing'))
+                        continue
+                    for k in range(len(ta[v])):
+                        if abs(ta[v][k] - tj[w][k]) > 1e-5 * (1 + abs(ta[v][k]) + abs(tj[w][k])):
+                            diff.append((w, k, ta[v][k], tj[w][k]))
+                            break
+                if diff:
+                    bad = 'series differ from the economy alone (variable, k, alone, joint): %r' % (diff[:3],)
+            rec['obs'].append({'kind': 'series-as-alone', 'what': 'economy %d (%s): every series as when solved alone (two periods)' % (i, combo[i]),
+                               'verdict': 'sat' if bad else 'unsat', 'structural': {'error': bad} if bad else None, 'eco': i})
         # isolation: no equation of this economy mentions a variable of another economy
         others = {n for n in defined_j if '__' in n and n.split('__')[0] not in set(fc.values())} - {'t'}
         leaks = []
